@@ -163,7 +163,8 @@ func (s *sim) startCallers(n int) {
 						// (more than the trickle path sends in one message,
 						// within one trickle tick)
 						hi := h
-						hi[0], hi[1], hi[2] = byte(i), byte(i>>8), 0xB7
+						// (never equal to the op's own vector, nor to each other)
+						hi[0], hi[1], hi[2] = byte(i), byte(i>>8), ^h[2]
 						s.p.QueueInventory(wire.NewInvVect(wire.InvType(o.invTyp), &hi))
 					}
 				case opDisconnect:
